@@ -287,6 +287,29 @@ def run(ctx):
                           'C06: %s; config %s, history %s' % (text, cfg.key(), sysprops.shape_sig(ops, 40)),
                           {'config': cfg.key(), 'ops': ops, 'sizes': {str(k): v for k, v in sizes.items()},
                            'schedule': {str(k): v for k, v in sch.items()}, 'always_consistent': always, 'signature': sig})
+    # (5) a directory removed and re-created under the same name in ONE namespace, with look-ups through that namespace in between
+    for i in range(12 if quick else 120):
+        cfg = cfgs2[i % len(cfgs2)] if (cfgs2 := [c for c in syslevel.all_configs() if c.udf or c.joliet]) else None
+        spaces = ([('udf', 'udf')] if cfg.udf else []) + ([('jol', 'jol')] if cfg.joliet else [])
+        ns, key = spaces[i % len(spaces)]
+        ops = [{'k': 'add_dir', key: '/docs'}, {'k': 'add_fp', 'blob': 1, 'size': 10, key: '/docs/old.txt'},
+               {'k': 'add_fp', 'blob': 2, 'size': 20, key: '/keep.txt'},
+               {'k': 'rm_link', 'ns': ns, 'path': '/docs/old.txt'}, {'k': 'rm_dir', key: '/docs'},
+               {'k': 'add_dir', key: '/docs'}, {'k': 'add_fp', 'blob': 3, 'size': 30, key: '/docs/new.txt'},
+               {'k': 'add_dir', key: '/docs/sub'}, {'k': 'add_fp', 'blob': 4, 'size': 5, key: '/docs/sub/deep.txt'}]
+        sizes = {1: 10, 2: 20, 3: 30, 4: 5}
+        ctx.case(('readd-dir', cfg.key(), ns), True)
+        r = None
+        for kq in range(len(ops) + 1):
+            r = same_bytes_oracle(ctx, 'readd-dir', cfg, ops, sizes, 3, forced={kq: ['query_all']})
+            if r:
+                break
+        if r:
+            sig, text, sch, always = r
+            ctx.violation('c06:%s:%s:%s' % (sig, sysrun.cfg_features(cfg), sysprops.shape_sig(ops)),
+                          'C06: %s; config %s, history %s' % (text, cfg.key(), sysprops.shape_sig(ops, 40)),
+                          {'config': cfg.key(), 'ops': ops, 'sizes': {str(k): v for k, v in sizes.items()},
+                           'schedule': {str(k): v for k, v in sch.items()}, 'always_consistent': always, 'signature': sig})
     ctx.cov['rule'] = ('every history is mastered under 4 (thorough: 12) schedules: lazy and always-consistent mode, with '
                        'force_consistency / get_record / list_children / walk / extra write_fp inserted at random points; images '
                        'compared byte for byte; the stale flag after EVERY call compared with the model; record queries after '
